@@ -627,7 +627,10 @@ func (d *ioDriver) actions() []ioAction {
 					add("read("+o.name+")", func() { d.start(o, "read", d.x.Deviate(3, "read variant"), 0) })
 				}
 				if o.wr == nil && o.kind != "fifo-r" {
-					add("write("+o.name+")", func() { d.start(o, "write", d.x.Deviate(3, "write variant"), 0) })
+					add("write("+o.name+")", func() { d.start(o, "write", []int{0, 2}[d.x.Deviate(2, "write variant")], 0) })
+					// a write that stays in flight until the next poll (the state a would-block or the dispatch
+					// limit produces) is a first-class action: "a read and a write in flight on the same object"
+					add("write-deferred("+o.name+")", func() { d.start(o, "write", 1, 0) })
 				}
 				if o.rd != nil || o.wr != nil {
 					add("cancel("+o.name+")", func() { d.cancel(o) })
